@@ -189,7 +189,8 @@ CHECKS = {
     'C01': dict(
         engine='E2+E3',
         technique='exhaustive sweep of EVERY budget 1..K+2 for every driver program and construct shape, K counted from outside by a '
-                  'node-evaluation tracer; all eval-call sequences up to length 2/3 over a shared names mapping with budgets around K',
+                  'node-evaluation tracer; all eval-call sequences up to length 2/3 over a shared names mapping with budgets around K; all '
+                  'interleavings of two evaluating threads at host-callback granularity under a baton scheduler',
         text='For every driver (all 13 node kinds; lambdas called directly, recursively, through map/filter/reduce/sorted, through '
              're-entrant and error-swallowing host callbacks, through ast_names; with and without a parse cache) and every construct '
              'shape, K is measured by the external tracer and every budget N in 1..K+2 is run: the charged counter must equal K, N > K '
